@@ -346,12 +346,22 @@ func craft(g *groups.G, L int, salt int) kyber.Point {
 func runData(c *vf.Check, g *groups.G) {
 	pk := "C17/" + g.Name + "/Data"
 	el := g.Point().EmbedLen()
-	Ls := []int{0, 1, el - 1, el, el + 1, el + 2, 200, 255}
+	// every value of a one-byte length field (the slow groups: around the boundaries and a few more)
+	var Ls []int
+	for L := 0; L < 256; L++ {
+		if g.Slow && !(L <= 2 || (L >= el-1 && L <= el+4) || L%32 == 0 || L == 255) {
+			continue
+		}
+		Ls = append(Ls, L)
+	}
 	if g.Family == "qr512" || g.Family == "residue-r84" {
 		Ls = append(Ls, 256, 300, 65535)
 	}
 	for _, L := range Ls {
 		for salt := 0; salt < 2; salt++ {
+			if salt == 1 && !(L <= 1 || (L >= el-1 && L <= el+2) || L == 200 || L >= 255) {
+				continue
+			}
 			L, salt := L, salt
 			id := fmt.Sprintf("%s: Data() with length field %d (EmbedLen %d) #%d", g.Name, L, el, salt)
 			c.Case(id, pk, func(x *vf.Ctx) {
